@@ -1,5 +1,5 @@
 """C10 — stale, replayed, mis-typed or unbound handshakes are rejected (DESIGN.md 4/C10)."""
-from ..mir import Callee, last_seg, loc, op_const, op_int, op_place
+from ..mir import tymatch, Callee, last_seg, loc, op_const, op_int, op_place
 from .common import (ty_kind, const_cmp_of_switch, err_return_reachable_only, gates_of_value, ok_some_blocks, returns_variant,
                      success_edge_dominates, outermost, accept_blocks, err_only)
 
@@ -145,7 +145,7 @@ def run(ctx):
     # (a) the two type-byte tables of the Shadowsocks Mode: by their *tables*, not their names: own = {client:0, server:1}, peer = 1 - own
     own_fns, peer_fns, tabs = set(), set(), {}
     for body in prog.prod_bodies():
-        if body.impl_self_def and body.impl_self_def.endswith("protocol::shadowsocks::Mode") and body.root == body.defp and body.local_ty(0) == "u8" and body.argc == 1:
+        if body.impl_self_def and tymatch(body.impl_self_def, "protocol::shadowsocks::Mode") and body.root == body.defp and body.local_ty(0) == "u8" and body.argc == 1:
             tb = mode_table(body)
             if tb == {0: 0, 1: 1}:
                 own_fns.add(body.defp)
@@ -166,9 +166,10 @@ def run(ctx):
     for body in prog.prod_bodies():
         if body.root != body.defp or "shadowsocks" not in body.defp:
             continue
-        names = {c.name for (_, c, _) in body.calls()}
-        meths = {c.method for (_, c, _) in body.calls() if "LruCache" in (c.self_s or "")}
-        if not any(n.startswith("Mutex::") for n in names) or not meths:
+        fcalls = prog.flat(body.defp).calls()        # the lock may be taken in a small private helper
+        names = {c.name for (_, c, _) in fcalls}
+        meths = {c.method for (_, c, _) in fcalls if "LruCache" in (c.self_s or "")}
+        if not any(n.startswith("Mutex::") for n in names) or not meths or body.argc < 2 or body.local_ty(0) not in ("bool", "()"):
             continue
         if "insert" in meths:
             record_fns.add(body.defp)
@@ -329,15 +330,24 @@ def run(ctx):
     # cache expiry constant
     ctor = []
     for body in prog.prod_bodies():
-        if "shadowsocks::tcp" not in body.defp:
+        if "shadowsocks" not in body.defp:
             continue
         for (blk, c, t) in body.calls():
-            if c.method == "with_expiry_duration_and_capacity" or c.method == "with_expiry_duration":
+            if (c.method == "with_expiry_duration_and_capacity" or c.method == "with_expiry_duration") and c.args and c.args[0].get("s", "").startswith("[u8;"):
                 ctor.append((body, blk, c, t))
     ctx.floor("V3", "salt cache constructors", 1, len(ctor))
     for (body, blk, c, t) in ctor:
         secs = None
         p = op_place(t["args"][0])
+        k0 = op_const(t["args"][0])
+        if p is None and k0 is not None and k0.get("item"):
+            # a named constant (`const SALT_TTL: Duration = Duration::from_secs(60)`): evaluate its initialiser
+            cb_ = prog.bodies.get(k0["item"])
+            for (_, cc, tt) in (cb_.calls() if cb_ is not None else []):
+                if cc.name == "Duration::from_secs":
+                    secs = op_int(tt["args"][0])
+                elif cc.name == "Duration::from_millis" and op_int(tt["args"][0]) is not None:
+                    secs = op_int(tt["args"][0]) / 1000.0
         if p is not None:
             for d in body.defs().get(p[0], []):
                 if d[0] == "call":
